@@ -75,18 +75,48 @@ func parseRaceLogs(glob string) (reports map[string]*raceReport, total int) {
 	return
 }
 
-func mapsEqual(a, b map[string]any) (bool, string) {
-	for k, v := range a {
-		if fmt.Sprint(b[k]) != fmt.Sprint(v) {
-			return false, fmt.Sprintf("%s: %v vs %v", k, v, b[k])
+// bulkThreshold: a function entered at least this many times during the first-use construction
+// of a sequential cold process is part of the construction's bulk arithmetic.
+const bulkThreshold = 16
+
+// constructionDiffers compares the construction-only entry counts of a concurrent process (b)
+// with those of the sequential cold process (a). It decides on the bulk sites only: repeating
+// (or cutting short) a table construction multiplies (or removes) thousands of field
+// operations, whereas what may legitimately vary with the schedule in correct code - a
+// sync.Pool's New function, a retry of a compare-and-swap helper - are a few entries of
+// functions that do no bulk work. Differences at non-bulk sites are returned as a note.
+func constructionDiffers(a, b map[string]any) (bulk string, minor string) {
+	num := func(v any) float64 {
+		var f float64
+		fmt.Sscan(fmt.Sprint(v), &f)
+		return f
+	}
+	keys := map[string]bool{}
+	for k := range a {
+		keys[k] = true
+	}
+	for k := range b {
+		keys[k] = true
+	}
+	names := make([]string, 0, len(keys))
+	for k := range keys {
+		names = append(names, k)
+	}
+	sort.Strings(names)
+	for _, k := range names {
+		va, vb := num(a[k]), num(b[k])
+		if va == vb {
+			continue
+		}
+		if va >= bulkThreshold || vb >= bulkThreshold {
+			if bulk == "" {
+				bulk = fmt.Sprintf("%s: %v in the sequential cold process vs %v", k, va, vb)
+			}
+		} else if minor == "" {
+			minor = fmt.Sprintf("%s: %v vs %v", k, va, vb)
 		}
 	}
-	for k, v := range b {
-		if _, ok := a[k]; !ok {
-			return false, fmt.Sprintf("%s: absent vs %v", k, v)
-		}
-	}
-	return true, ""
+	return
 }
 
 // runC18: sequential cold reference process, then N concurrent cold processes under -race.
@@ -149,6 +179,7 @@ func runC18(rc *runCfg, pl *plan, m *merged) error {
 	m.absorb(rc, st, outs)
 	// 3. construction-only counts of every concurrent process must equal the sequential ones
 	contended, compared := 0, 0
+	minorNotes := map[string]int{}
 	for w, o := range outs {
 		if o.res == nil {
 			continue
@@ -161,13 +192,17 @@ func runC18(rc *runCfg, pl *plan, m *merged) error {
 			continue
 		}
 		compared++
-		if ok, why := mapsEqual(vseq, v); !ok {
+		bulk, minor := constructionDiffers(vseq, v)
+		if bulk != "" {
 			cs := int64(w)
 			if rc.only >= 0 {
 				cs = rc.only
 			}
 			m.violations = append(m.violations, taggedViolation{Violation: mon.Violation{Case: cs, Kind: "first-use construction ran a different number of times than in a sequential cold process",
-				Detail: map[string]any{"process": w, "difference": why}}, Config: cfg, Mode: "concurrent"})
+				Detail: map[string]any{"process": w, "difference": bulk}}, Config: cfg, Mode: "concurrent"})
+		}
+		if minor != "" {
+			minorNotes[minor]++
 		}
 	}
 	orders := map[string]bool{}
@@ -183,6 +218,9 @@ func runC18(rc *runCfg, pl *plan, m *merged) error {
 	m.extra["distinct first-use completion orders observed (an observable of the schedule)"] = len(orders)
 	m.extra["concurrent cold processes"] = len(outs)
 	m.extra["processes whose construction counts were compared with the sequential process"] = compared
+	if len(minorNotes) > 0 {
+		m.extra["first-use entry counts that differed at non-bulk sites (recorded, not a verdict: pool constructors and retries may vary with the schedule)"] = minorNotes
+	}
 	m.extra["processes with a contended first use"] = contended
 	if contended == 0 && rc.only < 0 {
 		m.addInconclusive("no process had a contended first use (>=2 goroutines inside the once host at once): simultaneous first use was not observed")
